@@ -208,6 +208,82 @@ theorem C16_all_removed_nothing_left (ops : List ROp) (h : ∀ n, (afterR true o
     obtain ⟨n, hn⟩ := hi.owned g' (Or.inr (Or.inl ho))
     rw [h n] at hn; cases hn
 
+
+/-- Direct pool use (New / Get / controller Close in any order, with failing constructions): a lookup
+    yields an open, unclosed connection or reports absence — never a present-but-missing entry. -/
+theorem C16_pool_direct_get (ops : List POp) (n : Name) :
+    let s := afterP true ops
+    poolGet true s n = .absent ∨
+    ∃ g, poolGet true s n = .usable g ∧ s.connOpen g = true ∧ s.ctrlClosed g = false := by
+  intro s
+  have hi := pinv_afterP ops
+  cases hn : s.conns n with
+  | none => left; simp [poolGet, hn]
+  | some g =>
+    right
+    have e := hi.entry n g hn
+    have hcs : s.clientSet g = true := e.2.2.1
+    exact ⟨g, by simp [poolGet, hn, hcs], e.2.2.2.2, e.2.2.2.1⟩
+
+/-- … also while a constructor is running: the reserved entry is invisible to lookups. -/
+theorem C16_pool_direct_get_during_construction (ops : List POp) (n : Name) (s1 : State)
+    (h : poolReserve (afterP true ops) n = some s1) : poolGet true s1 n = .absent := by
+  have hi := pinv_afterP ops
+  have hcl : (afterP true ops).clientSet (afterP true ops).next = false := by
+    cases hc : (afterP true ops).clientSet (afterP true ops).next with
+    | false => rfl
+    | true => have := hi.client_lt _ hc; omega
+  unfold poolReserve at h
+  split at h
+  · cases h
+  · cases h
+    simp [poolGet, hcl]
+
+/-- A name without pool entry can be dialed: New succeeds when the constructor does, and the entry is
+    then usable; when the constructor fails New reports it and leaves the pool exactly as it was, so
+    the name can be dialed again (this is what D17 broke). -/
+theorem C16_pool_direct_new (ops : List POp) (n : Name) (h : (afterP true ops).conns n = none) :
+    let s := afterP true ops
+    (pnew true s n true).2 = .add .ok (some .absent) ∧
+    poolGet true (pnew true s n true).1 n = .usable s.next ∧
+    (pnew true s n false).2 = .add .conn (some .absent) ∧
+    (pnew true s n false).1.conns = s.conns ∧
+    (pnew true s n false).1.connOpen = s.connOpen := by
+  intro s
+  have hi := pinv_afterP ops
+  simp only [s]
+  rw [pnew_absent hi n true h, pnew_absent hi n false h]
+  simp [pnewOkState, failedState, poolGet, upd_upd_none _ _ _ h]
+
+/-- Closing a controller that has not been closed never panics; it deletes exactly its own pool entry,
+    closes its connection, ends the calls in flight on it, makes kept handles answer Unavailable, and
+    frees the name. -/
+theorem C16_pool_direct_close (ops : List POp) (k g : Nat)
+    (hk : (afterP true ops).issued[k]? = some g) (hc : (afterP true ops).ctrlClosed g = false) :
+    let s := afterP true ops
+    let s' := (pclose s k).1
+    (pclose s k).2 = .closed ∧
+    s.conns (s.ctrlTarget g) = some g ∧ s'.conns (s.ctrlTarget g) = none ∧
+    (∀ m, m ≠ s.ctrlTarget g → s'.conns m = s.conns m) ∧
+    s'.connOpen g = false ∧ (∀ c, s'.calls c ≠ some g) ∧
+    (∀ m, s.handles m = some g → stream s' m = .unavailable) := by
+  intro s s'
+  have hi := pinv_afterP ops
+  have i := hi.issuedOk g (List.mem_of_getElem? hk)
+  have own : s.conns (s.ctrlTarget g) = some g := hi.openIn g (i.2.2 hc)
+  simp only [s', s]
+  rw [pclose_live hi k g hk hc]
+  refine ⟨rfl, own, by simp [closedState], ?_, by simp [closedState], ?_, ?_⟩
+  · intro m hm; simp [closedState, hm]
+  · intro c hcc; simp [closedState] at hcc
+  · intro m hm; simp [stream, closedState, hm]
+
+/-- D17 on the ORIGINAL pool code (negative witness): a failed New poisons the name. -/
+theorem C16_D17_original_pool_fails :
+    (runP false init [.new 0 false, .new 0 true, .get 0]).2 =
+      [.add .conn (some .nilPresent), .add .dialed none, .get .nilPresent] := by
+  decide
+
 /-- D17, negative witness on the ORIGINAL code (`fx = false`): after one failed Add the name can never be
     added again (the pool answers ErrAlreadyDialed) and the pool lookup is present-but-missing — during
     the construction and forever after. -/
@@ -230,3 +306,8 @@ example : (afterR true [.add 0 .ok, .remove 0]).targets 0 = none := by decide
 example : (runR true init [.add 0 .ok, .get 0, .remove 0, .add 0 .ok, .stream 0, .get 0, .stream 0]).2 =
     [.add .ok (some .absent), .get (.usable 0), .removed, .add .ok (some .absent), .unavailable, .get (.usable 1), .streamOk] := by
   decide
+example : (afterP true [.new 0 true, .get 0, .call 0]).issued[0]? = some 0 := by decide
+example : (afterP true [.new 0 true, .get 0, .call 0]).ctrlClosed 0 = false := by decide
+example : (runP true init [.new 0 false, .new 0 true, .get 0, .call 0, .close 0, .stream 0, .close 0, .new 0 true]).2 =
+    [.add .conn (some .absent), .add .ok (some .absent), .get (.usable 1), .streamOk, .closed, .unavailable, .panic,
+     .add .ok (some .absent)] := by decide
